@@ -2,6 +2,7 @@ package eng
 
 import (
 	"fmt"
+	"go/ast"
 	"go/types"
 	"sort"
 	"strings"
@@ -161,6 +162,13 @@ func (e *Engine) doCall(s *State, d deferred, in ssa.Instruction) []callOut {
 				}
 			}
 		}
+		// call of a value of a named function type that has a contract ("functype")
+		if nt, ok := c.Value.Type().(*types.Named); ok {
+			key := structKey(nt)
+			if ct := e.C.Funcs[key]; ct != nil && ct.Flag("functype") {
+				return []callOut{{s, e.applyContract(s, ct, nil, sig, nt, append([]*Val{d.fn}, d.args...), in, key)}}
+			}
+		}
 		return []callOut{{s, e.unknownCall(s, "func value "+c.Value.Name(), resT, d.args, in)}}
 	}
 	own := fn.Pkg != nil && strings.HasPrefix(fn.Pkg.Pkg.Path(), e.P.ModPrefix) || (fn.Parent() != nil)
@@ -190,7 +198,7 @@ func (e *Engine) doCall(s *State, d deferred, in ssa.Instruction) []callOut {
 		var rt types.Type
 		return []callOut{{s, e.applyContract(s, ct, fn, fn.Signature, rt, d.args, in, key)}}
 	}
-	if own && len(fn.Blocks) > 0 && (ct != nil && ct.Flag("inline") || e.canInline(fn)) {
+	if own && len(fn.Blocks) > 0 && (ct != nil && ct.Flag("inline") || e.canInline(fn) || e.isPrivateHelper(fn)) {
 		return e.inline(s, fn, d.args, binds, in, key)
 	}
 	return []callOut{{s, e.unknownCall(s, key, resT, d.args, in)}}
@@ -240,9 +248,20 @@ func (e *Engine) inline(s *State, fn *ssa.Function, args, binds []*Val, in ssa.I
 	}
 	prefix += "inl:" + key[strings.Index(key, ".")+1:] + ord
 	e.snapEntry(s, fn, args, len(s.Frames))
+	e.event(s, Event{Kind: "call", What: key, Args: args, ArgTypes: e.argTypesFor(args), Pos: e.P.Pos(in.Pos()), Instr: in, Extra: map[string]string{"inlined": "1"}})
+	evIdx := len(s.Trace) - 1
 	outs := e.runFunc(s, fn, args, binds, prefix)
 	var res []callOut
 	for _, o := range outs {
+		if evIdx < len(o.s.Trace) && o.s.Trace[evIdx].Instr == in {
+			// results of the inlined call, for callret()
+			tr := append([]Event{}, o.s.Trace...)
+			tr[evIdx].Rets = o.results
+			for i := 0; i < fn.Signature.Results().Len(); i++ {
+				tr[evIdx].RetTypes = append(tr[evIdx].RetTypes, fn.Signature.Results().At(i).Type())
+			}
+			o.s.Trace = tr
+		}
 		var r *Val
 		switch len(o.results) {
 		case 0:
@@ -811,4 +830,38 @@ func (e *Engine) argTypesFor(args []*Val) []types.Type {
 		return e.curArgTypes
 	}
 	return nil
+}
+
+// isPrivateHelper: an unexported method without a contract, called from a method of the same receiver
+// type, is verified as part of its caller (inlined, one level deep and never recursively) instead of
+// being treated as an unknown callee. This keeps a harmless "extract helper" refactoring from raising
+// an alarm and still checks the helper's code against the caller's contract.
+func (e *Engine) isPrivateHelper(fn *ssa.Function) bool {
+	if fn.Signature.Recv() == nil || ast.IsExported(fn.Name()) || len(e.inlineStack) >= 2 {
+		return false
+	}
+	root := e.Fn
+	for root.Parent() != nil {
+		root = root.Parent()
+	}
+	if root.Signature.Recv() == nil {
+		return false
+	}
+	if structKey(deref(root.Signature.Recv().Type())) != structKey(deref(fn.Signature.Recv().Type())) {
+		return false
+	}
+	// only for types that carry an object invariant: there every method must be checked against it
+	if _, hasInv := e.C.TypeInvs[structKey(deref(fn.Signature.Recv().Type()))]; !hasInv {
+		return false
+	}
+	k := e.P.FuncKey(fn)
+	if k == e.FnKey || e.P.Recursive(fn) {
+		return false
+	}
+	for _, x := range e.inlineStack {
+		if x == k {
+			return false
+		}
+	}
+	return true
 }
